@@ -792,6 +792,11 @@ func TestVerifReplay(t *testing.T) {
 		if strings.Contains(out, "VERIF-ASSERT-FAILED "+label+"\n") {
 			return true, out
 		}
+		if strings.Contains(out, "fatal error: stack overflow") || strings.Contains(out, "goroutine stack exceeds") {
+			// the real code died unrecoverably before the harness could report: a crash
+			// that no recover() contains confirms a failed no-crash assertion
+			return true, out
+		}
 		return false, "native run failed differently (expected assertion " + label + ")\n" + out
 	}
 	if strings.Contains(out, "VERIF-ASSERT-FAILED") || strings.Contains(out, "panic:") || strings.Contains(out, "fatal error:") || strings.Contains(out, "VERIF-EXIT") {
